@@ -90,14 +90,11 @@ def do_sweep(name, seeds, tier="quick"):
             print("patch does not apply:", o)
             return 1
         p = meta["property"]
-        evp = os.path.join(VERIF, "evidence", p + ".json")
-        bak = open(evp).read() if os.path.exists(evp) else None
         for sd in seeds:
-            e2 = dict(os.environ, VERIF_REPO=tmp, VERIF_SEED=str(sd))
+            e2 = dict(os.environ, VERIF_REPO=tmp, VERIF_SEED=str(sd),
+                      VERIF_SCRATCH_OUT=os.path.join(tmp, ".pv-out"))
             rc, o = sh([os.path.join(VERIF, "check"), p, "--tier", tier], env=e2, timeout=7200)
             out[str(sd)] = rc
-        if bak is not None:
-            open(evp, "w").write(bak)
     finally:
         drop_tree(tmp)
     meta.setdefault("verified", {})["seed_sweep_%s" % tier] = out
@@ -135,12 +132,8 @@ def do_verify(name, tier="quick", all_props=False, props=None):
         todo = props or ([meta["property"]] if not all_props else
                          ["C%02d" % i for i in range(1, 20)])
         for p in todo:
-            evp = os.path.join(VERIF, "evidence", p + ".json")
-            bak = open(evp).read() if os.path.exists(evp) else None
-            e2 = dict(os.environ, VERIF_REPO=tmp)
+            e2 = dict(os.environ, VERIF_REPO=tmp, VERIF_SCRATCH_OUT=os.path.join(tmp, ".pv-out"))
             rc, out = sh([os.path.join(VERIF, "check"), p, "--tier", tier], env=e2, timeout=7200)
-            if bak is not None:
-                open(evp, "w").write(bak)
             mech = [ln.strip()[len("mechanism: "):] for ln in out.splitlines()
                     if ln.strip().startswith("mechanism:")]
             checks[p] = {"exit": rc, "mechanisms": mech[:4]}
@@ -188,5 +181,26 @@ if __name__ == "__main__":
         seeds = [int(x) for x in a[a.index("--seeds") + 1].split(",")] if "--seeds" in a \
             else [1, 2, 3, 4, 5]
         sys.exit(do_sweep(a[1], seeds))
+    if a[0] == "sweepall":
+        # every kept change, `jobs` at a time; prints only those not caught on every seed
+        import concurrent.futures as cf
+        seeds = a[a.index("--seeds") + 1] if "--seeds" in a else "1,2,3"
+        jobs = int(a[a.index("--jobs") + 1]) if "--jobs" in a else 3
+        names = sorted(n for n in os.listdir(SEEDED)
+                       if os.path.exists(os.path.join(SEEDED, n, "meta.json")))
+
+        def one(n):
+            rc, out = sh([sys.executable, os.path.abspath(__file__), "sweep", n, "--seeds",
+                          seeds], timeout=14400)
+            return n, [ln for ln in out.splitlines() if "exits by seed" in ln]
+        bad = 0
+        with cf.ThreadPoolExecutor(jobs) as ex:
+            for n, lines in ex.map(one, names):
+                ln = lines[-1] if lines else n + ": no result"
+                if ": 0" in ln or ": 2" in ln or not lines:
+                    bad += 1
+                    print("NOT CAUGHT ON EVERY SEED:", ln, flush=True)
+        print("%d changes swept, %d not caught on every seed" % (len(names), bad))
+        sys.exit(0)
     if a[0] == "table":
         table()
